@@ -88,7 +88,8 @@ def key_tags(meta, item_id):
 
 def run(pid, tier, seed):
     chk = C.Check(pid, tier, seed)
-    chk.rule = ("random type definitions (tsgen.Gen: structs/enums x serde/ts attributes x generics x nesting) compiled against /repo; "
+    chk.rule = ("random type definitions (tsgen.Gen: structs/enums x serde/ts attributes x generics x nesting; plus a corpus whose identifiers "
+                "do not follow Rust naming conventions under rename_all rules) compiled against /repo; "
                 "per type structural sample values (vderive::Samples); oracle = tsmodel membership of serde_json output in the "
                 "swc-parsed declared type. distinct_nontrivial = distinct (feature-signature of the type) among types with at "
                 "least one attribute, nesting or enum representation that had >=1 structured (object/array) value checked")
@@ -102,18 +103,19 @@ def run(pid, tier, seed):
     else:
         corpus = sem_corpus(seed, tier)
     run_value_monitor(chk, pid, pid, corpus, seed, tier)
-    if pid == "C02":
-        # property names and tag literals of members with unconventional identifiers must be the ones serde accepts
+    if pid in ("C01", "C02"):
+        # property names and tag literals of members with unconventional identifiers must be the ones serde emits / accepts
         gens = []
         for i in range(4 if tier == "quick" else 8):
+            restrict = dict(string_keys_only=True, big_ints=False, no_char=True) if pid == "C02" else {}
             prof = tsgen.Profile(max_depth=2, weird_idents=True, p_rename_all=0.9, flatten=False, inline=False, generics=False,
-                                 weird_renames=False, p_attr=0.15, string_keys_only=True, big_ints=False, no_char=True)
-            g = tsgen.Gen(seed * 1000 + 550 + i, "V" + chr(ord("a") + i), prof)
+                                 weird_renames=False, p_attr=0.15, **restrict)
+            g = tsgen.Gen(seed * 1000 + (550 if pid == "C02" else 570) + i, ("V" if pid == "C02" else "Y") + chr(ord("a") + i), prof)
             for _ in range(30 if tier == "quick" else 150):
                 g.item()
             g.make_entries()
             gens.append(g)
-        run_value_monitor(chk, pid, pid, Corpus("semw", gens), seed, tier)
+        run_value_monitor(chk, pid, pid, Corpus("semw" if pid == "C02" else "semy", gens), seed, tier)
     return chk.finish(min_evaluations=200, min_distinct=20)
 
 
